@@ -10,12 +10,17 @@ CELL = "atomic_refcell 0.1.14 borrow flags are atomic and exact (modelled, not v
 TYPES = "rustc's type system: a value passed as R has type R; no live guard during a &mut World call"
 
 
-def plan(profiles, quick=800, thorough=30000, **kw):
+def plan(profiles, quick=800, thorough=30000, nopar=False, **kw):
     d = {"engine": "plan", "args": {"profiles": profiles}, "quick": {"cases": quick},
          "thorough": {"cases": thorough, "small-scope": True},
-         "search": {"cases": 4000}}
+         "search": {"cases": 4000}, "nopar": nopar}
     d["args"].update(kw)
     return d
+
+
+def plan_nopar(profiles, quick=200, thorough=4000):
+    """the same layouts from the build without the `parallel` feature (code under cfg(feature))"""
+    return plan(profiles, quick=quick, thorough=thorough, nopar=True)
 
 
 def trace(profiles, quick=120, thorough=3000, nopar=False, **kw):
@@ -31,19 +36,19 @@ TRACE = LAYOUT + ["trace", "thread"]
 PROPS = {
     "C01": {
         "statement": "Scenario.C01_isolation: in every trace of the plan of every registration sequence, two systems open at the same time have non-conflicting declarations",
-        "engines": [plan("plan,flat,funnel,batch"), trace("flat,base,batch,funnel")],
+        "engines": [plan("plan,flat,funnel,batch"), trace("flat,base,batch,funnel"), plan_nopar("plan,funnel,batch")],
         "aspects": TRACE,
         "assumptions": [RAYON, CELL],
     },
     "C02": {
         "statement": "Scenario.C02_dependencies: D A precedes F B in every trace whenever B was registered with A among its dependencies",
-        "engines": [plan("deps,plan,batch"), trace("deps,base", quick=40, **{"long-holds": True})],
+        "engines": [plan("deps,plan,batch"), trace("deps,base", quick=40, **{"long-holds": True}), plan_nopar("deps,plan")],
         "aspects": TRACE,
         "assumptions": [RAYON],
     },
     "C03": {
         "statement": "Scenario.C03_barriers",
-        "engines": [plan("barriers,plan,batch"), trace("barriers,batch", quick=40)],
+        "engines": [plan("barriers,plan,batch"), trace("barriers,batch", quick=40), plan_nopar("barriers,batch")],
         "aspects": TRACE,
         "assumptions": [RAYON],
     },
@@ -51,7 +56,10 @@ PROPS = {
         "statement": "Scenario.C04_exactly_once",
         "engines": [plan("funnel,plan,batch,tl"), trace("funnel,batch,tl,base", quick=50, **{"partial-modes": True}),
                     # histories with a caught panic between the dispatches
-                    trace("flat,batch", quick=20, thorough=600, panics=True)],
+                    trace("flat,batch", quick=20, thorough=600, panics=True), plan_nopar("plan,batch,tl"),
+                    # the asynchronous dispatcher: every ordinary system once per dispatch, every thread-local one once per wait
+                    {"engine": "asyncd", "args": {}, "quick": {"cases": 300}, "thorough": {"cases": 6000}}],
+        "also": {"C15": ["run-count", "tl-count"]},
         "aspects": TRACE,
         "assumptions": [RAYON],
     },
@@ -70,19 +78,22 @@ PROPS = {
         "statement": "Scenario.C05_schedule_independence: every trace of the parallel plan has the effect of the sequential trace, given that events of non-conflicting systems commute",
         "engines": [trace("flat,base,batch,tl,funnel", quick=100, rounds=4), trace("flat,base,batch", quick=30, nopar=True),
                     # what may run in parallel is decided by the plan: layouts against the model's, where groups have several members
-                    plan("funnel,plan", quick=500)],
+                    plan("funnel,plan", quick=500),
+                    # the hypothesis "depends only on the resources it declared" rests on the provided system-data types declaring what they borrow
+                    {"engine": "sysdata", "args": {}, "quick": {"exhaust-upto": 6, "samples": 12, "pre-samples": 6}, "thorough": {"exhaust-upto": 8, "samples": 100, "pre-samples": 30}}],
+        "also": {"C06": ["reads()", "writes()", "borrows"]},
         "aspects": TRACE + ["effects"],
         "assumptions": [RAYON, CELL, "the harness systems' update function (sys.rs::mix / Model/Effect.lean::mix) stands for 'behaviour that depends only on own state and declared resources'"],
     },
     "C07": {
         "statement": "C07_batch_reads/_writes (the batch accessor is exactly controller ∪ inner), C07_conflict_lifts, C07_nested_wf",
-        "engines": [plan("batch,plan"), trace("batch", quick=60)],
+        "engines": [plan("batch,plan"), trace("batch,kf1", quick=80), plan_nopar("batch")],
         "aspects": TRACE,
         "assumptions": [RAYON, CELL],
     },
     "C10": {
         "statement": "C10_skipped_stage_justified (+ simulation by the five-table builder)",
-        "engines": [plan("plan,deps,barriers,funnel")],
+        "engines": [plan("plan,deps,barriers,funnel"), plan_nopar("plan,deps,barriers,funnel")],
         "aspects": ["layout", "outcome", "maxthreads"],
         "assumptions": [],
     },
@@ -103,7 +114,9 @@ PROPS = {
         "also": {"C15": ["tl-count", "tl-outside-wait", "tl-thread", "tl-before-finish"]},
         "aspects": TRACE,
         "probes": [{"dir": "probes/not_send", "expect": "fail", "grep": "cannot be sent between threads safely", "why": "Dispatcher must not be Send (it may hold thread-local systems)"},
-                   {"dir": "probes/send_ok", "expect": "compile", "why": "SendDispatcher must be Send"}],
+                   {"dir": "probes/send_ok", "expect": "compile", "why": "SendDispatcher must be Send"},
+                   {"dir": "probes/staged_requires_send", "expect": "fail", "grep": "error[E0277]", "single": True, "why": "a system that is not Send must not be accepted as a staged system (it would run on a pool worker)"},
+                   {"dir": "probes/thread_local_not_send_ok", "expect": "compile", "why": "control: the same system is accepted as a thread-local system"}],
         "assumptions": [RAYON, "pool.install runs its closure on a pool worker when called from outside the pool"],
     },
     "C13": {
@@ -123,7 +136,7 @@ PROPS = {
     },
     "C18": {
         "statement": "add_panics_iff / add_ok / resolve_error_iff",
-        "engines": [plan("malformed,funnel,plan,funnel", quick=400, **{"max-n": 40})],
+        "engines": [plan("malformed,funnel,plan,funnel", quick=400, **{"max-n": 40}), plan_nopar("malformed,plan")],
         "aspects": ["outcome", "query"],
         "assumptions": ["panic payloads are compared as text (quoted name)"],
     },
@@ -137,7 +150,7 @@ PROPS = {
     },
     "C20": {
         "statement": "Scenario.C20_printed_is_executed + byte-for-byte Debug text",
-        "engines": [plan("malformed,plan,batch")],
+        "engines": [plan("malformed,plan,batch"), plan_nopar("malformed,plan,batch")],
         "aspects": ["debug", "layout", "outcome"],
         "assumptions": [],
     },
@@ -200,6 +213,12 @@ PROPS["C08"] = {
     "statement": "C08.every_history / step_preserves_inv (each cell is free, shared by exactly its n live shared guards, or exclusive with exactly one live guard, after every legal history — histories include closures that take guards and panic, and &mut calls that meet a panic of user code), C08.outcome_spec (None iff absent, borrow panic iff an incompatible guard is alive, a guard otherwise), C08.panic_frame (+ unwinding of composite fetches), C08.drop_exact, C08.scope_frame / scope_restores / unwind_eq_return (a closure that takes guards of any kind and returns, panics or is refused a fetch half-way leaves every cell and every outer guard as they were), C08.entry_guard_unwinds, C08.exec_closure_panics",
     "engines": [world()],
     "aspects": ["outcome", "state"],
+    # the compile-time half of "never an aliasing guard": what is handed out borrows from the guard / the world
+    "probes": [{"dir": "probes/meta_ref_outlives_guard", "expect": "fail", "grep": "error[E0505]", "single": True, "why": "the trait object MetaTable::get returns must not outlive the guard it was derived from"},
+               {"dir": "probes/meta_two_mut_refs", "expect": "fail", "grep": "error[E0499]", "single": True, "why": "MetaTable::get_mut must not hand out two live exclusive references from one guard"},
+               {"dir": "probes/guard_outlives_world", "expect": "fail", "grep": "error[E0505]", "single": True, "why": "a guard must not outlive the world"},
+               {"dir": "probes/entry_excludes_fetch", "expect": "fail", "grep": "error[E0502]", "single": True, "why": "no guard can be taken while an entry borrows the world exclusively"},
+               {"dir": "probes/world_guards_ok", "expect": "compile", "why": "control: the same calls in a legal order compile"}],
     "assumptions": [CELL + "; each cell operation (try_borrow, borrow_mut, guard drop) is one atomic step, so a many-thread history is treated as an interleaving of the modelled operations (linearizability of AtomicRefCell is assumed, not proved; the stress part of the engine only checks that no two incompatible guards ever coexist)", TYPES],
 }
 PROPS["C09"] = {
